@@ -7,6 +7,7 @@
 //   ab_posin <[shape]> <[pos]> <[count]|~>      positionAndExtentInData / positionInData          => ok 0|1
 //   ab_fdim <ncols> <nrows> <col|~> <default col|~>   label / unit / columnDataType / ticks of a data-frame dimension      => ok …
 #include "common.hpp"
+#include "hdf5/h5x/H5DataSet.hpp"
 #include <nix/NDArray.hpp>
 #include <cstdio>
 
@@ -211,6 +212,17 @@ DRV_OP(ab_tagidx) {
         std::string r;
         for (size_t i = 0; i < out.size(); i++) r += (i ? " " : "") + out[i];
         return r;
+    });
+}
+
+// ab_chunk <[shape]> <element size in bytes> : DataSet::guessChunking — the chunk shape a data set of that shape is created with
+//   (every createDataArray / createDataFrame / createProperty goes through it; a `while (true)` loop)      => ok <[chunk shape]>
+DRV_OP(ab_chunk) {
+    if (a.size() != 3) throw ProtoError("ab_chunk arity");
+    return guarded([&]() {
+        size_t e = (size_t) tokNat(a[2]);
+        if (e == 0) throw ProtoError("ab_chunk: element size 0");
+        return ndTok(nix::hdf5::DataSet::guessChunking(nd(a[1]), e));
     });
 }
 
